@@ -627,7 +627,22 @@ def _handlers_around(node: ast.AST) -> set[str]:
     return out
 
 
+def rule_loose_to_strict_(ctx: Ctx, rep: Report) -> None:
+    """C19.loose_to_strict: a loose-typed parameter reaches a strict-typed helper only converted (see sigcommon.rule_loose_to_strict)."""
+    from rules.sigcommon import rule_loose_to_strict
+    rule_loose_to_strict(ctx, rep, "C19.loose_to_strict", ('btclib.',), 40)
+
+
+def rule_coercion_used_(ctx: Ctx, rep: Report) -> None:
+    """C19.coercion_used: a conversion of a parameter that is read again is kept (see sigcommon.rule_coercion_used)."""
+    from rules.sigcommon import rule_coercion_used
+    rule_coercion_used(ctx, rep, "C19.coercion_used", ('btclib.',))
+
+
 RULES = [
+    ("C19.loose_to_strict", rule_loose_to_strict_),
+    ("C19.coercion_used", rule_coercion_used_),
+
     ("C19.text_encode", rule_text_encode),
     ("C19.first_transaction", rule_first_transaction),
     ("C19.sized_int_siblings", rule_sized_int_siblings),
